@@ -97,16 +97,20 @@ func NewBucket[V comparable](capacity int) *Bucket[V] {
 	}
 }
 
-// IsStale returns true if the latest item in the bucket is expired.
+// IsStale returns true if every item in the bucket is expired.
 func (b *Bucket[V]) IsStale() (stale bool) {
 	b.mtx.Lock()
 	defer b.mtx.Unlock()
-	if b.items.Len() == 0 {
-		return true
-	}
 
-	latest := b.items[b.items.Len()-1]
-	return latest.expired(time.Now())
+	// The last element of the heap's slice is not necessarily the latest
+	// ending item, so all of them have to be looked at.
+	now := time.Now()
+	for _, item := range b.items {
+		if !item.expired(now) {
+			return false
+		}
+	}
+	return true
 }
 
 // Upsert tries to add a new value and its priority to the bucket.
